@@ -36,15 +36,15 @@ Print Assumptions C08_copy_limit_only_by_copy.
 (* the cause, against the reference: in the stated domain Apply fails at the reference's first
    failing operation, and the error class corresponds to the reference's cause of failure *)
 Theorem C08_cause : forall o indent p doc t i cz,
-  (has_copy p -> codec_ok) -> plain_opts o -> parse doc = Some t -> root_container t = true -> tnodup t = true ->
+  plain_opts o -> parse doc = Some t -> root_container t = true -> tnodup t = true ->
   Forall op_dom p -> rfc_apply (dia o) (den t) (map den_op p) = Failed i cz ->
   exists e, api_apply o indent p doc = RErr (Some i) e /\
     (e = ETestFailed <-> cz = FTest) /\
     (cz = FMissingMember \/ cz = FUnreachable -> e = EMissing) /\
     is_copy_limit e = false.
 Proof.
-  intros o indent p doc t i cz CO PO P RC T D R.
-  pose proof (api_apply_sim o indent p doc t CO PO P RC T D) as S. rewrite R in S.
+  intros o indent p doc t i cz PO P RC T D R.
+  pose proof (api_apply_sim o indent p doc t PO P RC T D) as S. rewrite R in S.
   destruct S as [e [S1 S2]]. exists e. split; [exact S1|].
   split; [apply cause_rel_test_iff; exact S2|]. split; [apply cause_rel_missing; exact S2 | eapply cause_rel_not_limit; eauto].
 Qed.
